@@ -38,7 +38,7 @@ const (
 
 type c18Scenario struct {
 	Seqs    []string // per broker op sequence
-	Expire  []int    // ENV thread: broker indices whose current session lease expires, in order
+	Expire  []int    // ENV thread, in order: i = the current session lease of broker i expires; 10+i = the session of broker i's previous (crashed) incarnation expires
 	Group   bool     // use GroupLeaseManager instead of PartitionLeaseManager
 	FailOps bool
 }
@@ -160,9 +160,19 @@ func c18Body(sc c18Scenario) func(s *sched.Sched) {
 		}
 		if len(sc.Expire) > 0 {
 			s.Go("ENV", func() {
-				for _, bi := range sc.Expire {
+				for _, ev := range sc.Expire {
 					sched.Env("env.expire")
-					m := brokers[bi].lm()
+					var m *LeaseManager
+					if ev >= 10 {
+						if olds := brokers[ev-10].olds; len(olds) > 0 {
+							m = olds[len(olds)-1]
+						}
+					} else {
+						m = brokers[ev].lm()
+					}
+					if m == nil {
+						continue
+					}
 					m.mu.RLock()
 					sess := m.session
 					m.mu.RUnlock()
@@ -254,6 +264,22 @@ func c18Scenarios(thorough bool) []c18Scenario {
 		{Seqs: []string{"ASR", "A", "A"}, Expire: []int{0}},
 	}
 	out = append(out, three...)
+	// crash-restart with re-acquisition while the previous incarnation's session is still
+	// alive in etcd and expires at some point (10 = old session of broker 1)
+	restart := []c18Scenario{
+		{Seqs: []string{"ASA", "A"}, Expire: []int{10}},
+		{Seqs: []string{"ASA", "AR"}, Expire: []int{10}},
+		{Seqs: []string{"ASA", "A"}, Expire: []int{10, 1}},
+		{Seqs: []string{"ASA", "A", "A"}, Expire: []int{10}},
+		{Seqs: []string{"ASAR", "A"}, Expire: []int{10}},
+		{Seqs: []string{"ASA", "ASA"}, Expire: []int{10, 11}},
+	}
+	out = append(out, restart...)
+	for _, sc := range restart[:2] {
+		g := sc
+		g.Group = true
+		out = append(out, g)
+	}
 	// same closed systems on the group lease manager (shares LeaseManager)
 	for _, sc := range three {
 		g := sc
